@@ -67,6 +67,18 @@ CHECKS = {
         "design_ref": "DESIGN.md §4 C13",
         "note": "Trusts vf/ref/loops.py. continue after a negative offset and cols <= 0 are not asserted.",
     },
+    "C25": {
+        "technique": "exhaustive small-domain testing of filter contracts vs reference implementations and algebraic laws",
+        "text": "Each documented contract (size, case/whitespace ops, split/join round trip, reverse/sort/sort_natural/uniq/compact/concat/map/where/reject, slice/first/last, truncate, truncatewords, arithmetic, default) is an executable oracle evaluated on complete small typed pools (all strings over a 5-letter alphabet up to length 3/4, all lists over 5 elements up to length 3/4, all pairs of numeric operands incl. huge ints, floats and numeric strings); results are read back exactly through the json filter, and inputs are checked to be unchanged.",
+        "design_ref": "DESIGN.md §4 C25",
+        "note": "Exhaustive only for the stated pools. Ambiguous documentation (round .5 ties, negative float modulo, slice before the start, mixed-type sort) is not asserted.",
+    },
+    "C26": {
+        "technique": "reference-formatter testing: generated messages x filters/tag x counts vs gettext.NullTranslations",
+        "text": "Random messages over an alphabet rich in percent forms are pushed through the translate tag and the t/gettext/ngettext/pgettext/npgettext filters (message as literal and variable) with every count in the pool; output must equal the message with only %(name)s placeholders substituted (%% kept or collapsed; tag modulo whitespace runs), and the plural form must be the one gettext.NullTranslations selects.",
+        "design_ref": "DESIGN.md §4 C26",
+        "note": "Uses Python's gettext.NullTranslations as the plural oracle. Message catalogues are out of scope (the property is about their absence).",
+    },
     "C24": {
         "technique": "model-based testing: exhaustive op histories + owned schedules vs list-LRU reference model; thread stress",
         "text": "Every op history up to length 4 (quick) / 5 (thorough) over 20 ops, capacities 1-4, both cache classes, is compared step by step with an independent list model, so within that bound the sequential clause is decided completely; longer random histories sample beyond it. 'While being listed' is decided deterministically by owned schedules (listing begun, other ops interleaved, listing drained); real threads add a one-sided stress.",
